@@ -142,6 +142,28 @@ fn lowres_mix(rng: &mut Rng) -> Vec<u64> {
     out
 }
 
+/// sparse deep cascade: walk down `levels` levels from a root, keeping at each level all siblings of the
+/// chosen child; the last level keeps the chosen child's place filled by ALL its children, so that everything
+/// merges back level by level (one group per pass); `hole` removes one leaf so that it stops part-way
+fn deep_chain(rng: &mut Rng, levels: i32, hole: bool) -> Vec<u64> {
+    let start = match rng.below(4) { 0 => -1, 1 => 0, _ => rng.range(1, (29 - levels).max(1) as i64) as i32 };
+    let mut cur = if start == -1 { 0 } else {
+        let h = if start >= 2 { start - 1 } else { 0 };
+        let s = if h == 0 { 0 } else { rng.next() & ((1u64 << (2 * h)) - 1) };
+        serialize(&A5Cell { origin_id: rng.below(12) as u8, segment: if start == 0 { 0 } else { rng.below(5) as usize }, s, resolution: start }).unwrap()
+    };
+    let mut out = vec![];
+    let depth = levels.min(29 - start);
+    for d in 0..depth {
+        let ks = children(cur);
+        let pick = rng.below(ks.len() as u64) as usize;
+        for (i, &k) in ks.iter().enumerate() { if i != pick || d == depth - 1 { out.push(k); } }
+        cur = ks[pick];
+    }
+    if hole && out.len() > 1 { let i = rng.below(out.len() as u64) as usize; out.remove(i); }
+    out
+}
+
 fn overlapping(rng: &mut Rng, base: &[u64]) -> Vec<u64> {
     let mut v = base.to_vec();
     let n = 1 + rng.below(4);
@@ -222,7 +244,8 @@ pub fn gen_c08(tier: &str, seed: u64, out: &str, mc: Option<&str>) -> Value {
     }
     let cases = if tier == "thorough" { 6000 } else { 500 };
     for i in 0..cases {
-        let base = match i % 5 { 0 => lowres_mix(&mut rng), _ => random_antichain(&mut rng, if i % 7 == 0 { 250 } else { 60 }) };
+        let base = match i % 5 { 0 => lowres_mix(&mut rng), 1 if i % 2 == 0 => { let l = 5 + rng.below(25) as i32; deep_chain(&mut rng, l, i % 4 == 0) }
+                                  _ => random_antichain(&mut rng, if i % 7 == 0 { 250 } else { 60 }) };
         if base.is_empty() { continue; }
         let cells = if i % 3 == 0 { n_over += 1; overlapping(&mut rng, &base) } else { base };
         t.emit(compact8_event(&cells, &mut rng, 3, cap));
@@ -254,7 +277,8 @@ pub fn gen_c10(tier: &str, seed: u64, out: &str, mc: Option<&str>) -> Value {
     }
     let cases = if tier == "thorough" { 8000 } else { 700 };
     for i in 0..cases {
-        let a = match i % 4 { 0 => lowres_mix(&mut rng), _ => random_antichain(&mut rng, if i % 9 == 0 { 250 } else { 60 }) };
+        let a = match i % 4 { 0 => lowres_mix(&mut rng), 1 => { let l = 4 + rng.below(26) as i32; deep_chain(&mut rng, l, i % 8 == 1) }
+                              _ => random_antichain(&mut rng, if i % 9 == 0 { 250 } else { 60 }) };
         if a.is_empty() { continue; }
         t.emit(compact10_event(&a));
         n += 1;
